@@ -30,6 +30,7 @@ type Finding struct {
 	Values   map[string]string `json:"values"`  // input name -> rendered value (replay)
 	Choices  []int             `json:"choices"` // decision trail
 	PathCond string            `json:"pc,omitempty"`
+	Threads  bool              `json:"threads,omitempty"` // found in thread mode (needs an interleaving)
 }
 
 type Explorer struct {
